@@ -29,6 +29,24 @@ func Harness(prop string) func(ctx *common.Ctx) error {
 		}
 		res.Rule = "histories of K sessions (SELECT, APPEND, STORE incl. .SILENT, EXPUNGE, COPY, MOVE, FETCH BODY[], UID FETCH probe, SEARCH, NOOP, CHECK, IDLE/DONE), deliveries of held state updates (the schedule, through the verifhook hold/release hook) and connector updates, generated online from one PRNG; non-trivial = distinct history in which at least one foreign update was delivered to a selected session"
 		var lines []string
+		// corpus: scripted scenarios (minimised shapes of earlier findings and of seeded changes) run first
+		for si, sc := range Corpus() {
+			c2 := Config{K: sc.K, NMbox: 2, Script: sc.Ops, Bulk: sc.Bulk}
+			ctx.Current(fmt.Sprintf("corpus %s", sc.Name), nil)
+			run, err := RunHistory(ctx.Rng, c2)
+			if err != nil {
+				return fmt.Errorf("corpus %s: %w", sc.Name, err)
+			}
+			res.Evaluations++
+			res.Count("corpus")
+			res.Nontrivial("corpus:" + sc.Name)
+			for _, f := range run.Fails {
+				if f.Prop == prop {
+					res.Fail(f.Canon, "corpus "+sc.Name+": "+f.Detail, map[string]interface{}{"history": run.Hist, "step": f.Step})
+				}
+			}
+			lines = append(lines, run.CoqCase(10000+si))
+		}
 		for i := 0; i < n; i++ {
 			cfg.K = 2 + ctx.Rng.Pick(2)
 			cfg.Disciplined = i%2 == 0
